@@ -41,5 +41,26 @@ func VerifC09Metrics() {
 	verifRacePair("idle:NetworkErrorRatio|TotalCount", func() { _ = m.NetworkErrorRatio() }, func() { _ = m.TotalCount() })
 	clock.Advance(3 * time.Second)
 	verifRacePair("idle:Export|ResponseCodeRatio", func() { _ = m.Export() }, ratio)
+	// every inspection call against itself after an idle gap
+	insp := []struct {
+		name string
+		f    func()
+	}{
+		{"StatusCodesCounts", func() { _ = m.StatusCodesCounts() }},
+		{"ResponseCodeRatio", ratio},
+		{"NetworkErrorRatio", func() { _ = m.NetworkErrorRatio() }},
+		{"TotalCount", func() { _ = m.TotalCount() }},
+		{"NetworkErrorCount", func() { _ = m.NetworkErrorCount() }},
+		{"Export", func() { _ = m.Export() }},
+	}
+	for i := range insp {
+		for j := i; j < len(insp); j++ {
+			clock.Advance(3 * time.Second)
+			m.Record(200, time.Millisecond)
+			m.Record(502, time.Millisecond)
+			clock.Advance(2 * time.Second)
+			verifRacePair("idle:"+insp[i].name+"|"+insp[j].name, insp[i].f, insp[j].f)
+		}
+	}
 	verifReach("end")
 }
